@@ -288,6 +288,24 @@ class Exec:
             val = _int(v) if val is None else z3.If(cond, _int(v), val)
         return val
 
+    def is_self_call(self, n):
+        return (isinstance(n, ast.Call) and isinstance(n.func, ast.Attribute) and isinstance(n.func.value, ast.Name)
+                and n.func.value.id == 'self' and n.func.attr in self.methods)
+
+    def inline_paths(self, n, st):
+        """paths of an inlined helper call as [(extra path condition, returned value)] (values may be fractions)"""
+        fdef = self.methods[n.func.attr]
+        args = [st.env['self']] + [self.ev(x, st) for x in n.args]
+        sub = State({}, list(st.pc), st.clock, [])
+        for a, v in zip(fdef.args.args, args):
+            sub.env[a.arg] = v
+        outs = []
+        for (s2, o) in self.block(fdef.body, sub):
+            if o.kind != 'return':
+                raise UnsupportedSyntax(f'helper {fdef.name} does not return on every path')
+            outs.append((s2.pc[len(st.pc):], o.value))
+        return outs
+
     # ------------------------------------------------------------------ statements
     def run(self, fdef, args):
         st = State({}, [], z3.IntVal(0), [])
@@ -330,6 +348,16 @@ class Exec:
         if isinstance(s, ast.Expr) and isinstance(s.value, ast.Yield):
             c = s.value.value
             if isinstance(c, ast.Call) and isinstance(c.func, ast.Attribute) and c.func.attr == 'timeout':
+                if self.is_self_call(c.args[0]):
+                    out = []
+                    for extra, d in self.inline_paths(c.args[0], st):
+                        s2 = st.fork()
+                        s2.pc += extra
+                        s2.log.append(('timeout', d))
+                        s2.clock = self.arith('+', s2.clock, d)
+                        s2.env['env'].set('now', s2.clock)
+                        out.append((s2, Outcome('fall')))
+                    return out
                 d = self.ev(c.args[0], st)
                 st.log.append(('timeout', d))
                 st.clock = self.arith('+', st.clock, d)
